@@ -16,7 +16,7 @@
    C19_subclass_from_dict_refuted) have been replaced by the theorems that now hold. *)
 From Coq Require Import ZArith QArith List String Bool Lia.
 From Cop Require Import Model.Lifecycle Model.Vine Model.LifecycleTab Spec.LifecycleProofs.
-From CopRun Require Import Gen_c19facts.
+From CopRun Require Import Gen_c19facts Gen_unictl.
 Import ListNotations.
 Open Scope string_scope.
 Open Scope list_scope.
@@ -397,6 +397,303 @@ Theorem C19_def_before_use_structure_refuted :
 Proof. exact def_before_use_structure_refuted. Qed.
 
 (* ===================================================================================================== *)
+(* Bridges: the control skeleton of copulas/univariate/base.py, GENERATED from the AST on every run       *)
+(* (CopRun.Gen_unictl, tools/vf/unictlgen.py), equals the hand-written Model.Lifecycle                     *)
+(* ===================================================================================================== *)
+(* Gen_unictl.v has a fixed vocabulary (its header: the M monad over (sinst * installed generator), attribute get/set, the
+   override table, the np.unique summary, scipy delegation, @random_state) and one definition per method, built statement by
+   statement from the source.  Each theorem below is about ALL states / inputs.  The subclass hooks (_fit, _fit_constant,
+   _is_constant, _extract_constant) are parameters of the generated definitions; they are instantiated with the model's own view
+   of them ([model__fit] ... : the corresponding pieces of Lifecycle.fit_scipy / is_constant / extract_constant).  GaussianKDE
+   overrides the five query methods and _set_params, hence [s_fam s <> FKDE] there (checked against the source by the
+   translator: which family class defines which skeleton method). *)
+Ltac m_unfold := unfold m_seq, m_bind, m_ret, m_raise, m_lift, py_get_fitted, py_set_fitted, py_set__constant_value, py_get__params,
+  py_set__params, py_bind_method, py_instance_dict_pop, py_first_unique, py_dict_copy.
+
+Theorem C19_bridge_check_fit : forall s src,
+  gen_Univariate_check_fit (s, src) = ((s, src), if s_fitted s then Ok tt else Err NotFitted).
+Proof. intros. unfold gen_Univariate_check_fit. m_unfold. cbn [fst snd]. destruct (s_fitted s); reflexivity. Qed.
+
+Theorem C19_bridge_replace_constant_methods : forall s src,
+  gen_Univariate__replace_constant_methods (s, src) = ((set_ov all_ov s, src), Ok tt).
+Proof. intros. reflexivity. Qed.
+
+Theorem C19_bridge_set_constant_value : forall c s src,
+  gen_Univariate__set_constant_value c (s, src) = ((set_constant c s, src), Ok tt).
+Proof. intros. reflexivity. Qed.
+
+Theorem C19_bridge_check_constant_value : forall X s src,
+  gen_Univariate__check_constant_value X (s, src) =
+  match d_const X with
+  | Some c => ((set_constant (qj c) s, src), Ok true)
+  | None => ((set_ov no_ov (set_const None s), src), Ok false)
+  end.
+Proof.
+  intros. unfold gen_Univariate__check_constant_value, py_unique.
+  destruct (d_const X) as [c|]; [reflexivity|].
+  destruct (d_n X =? 0)%nat; reflexivity.
+Qed.
+
+Section UniCtlFit.
+  Variable o_sfit : family -> data -> list Q -> list Q.
+  Variable o_tg_opt : data -> Q -> Q -> Q * Q.
+  Variable o_tolist : data -> list Q.
+  Variable o_resample : data -> jv -> jv -> nat -> grng -> list Q.
+
+  (* the model's view of the subclass hook _fit_constant(X): assigns _params *)
+  Definition model__fit_constant (X : data) : M unit := fun w =>
+    match d_const X with
+    | Some c => match constant_params o_sfit (fst w) X c with
+                | Ok p => ((set_params (Some p) (fst w), snd w), Ok tt)
+                | Err e => (w, Err e)
+                end
+    | None => (w, Err Unmodelled)
+    end.
+  (* the model's view of the subclass hook _fit(X) *)
+  Definition model__fit (X : data) : M unit := fun w =>
+    let s := fst w in
+    match snd w with
+    | RsOwn _ => (w, Err Unmodelled)
+    | RsGlobal g =>
+      match s_fam s with
+      | FTrunc =>
+          let lo := if is_none (s_min s) then qj (d_min X - EPS) else s_min s in
+          let hi := if is_none (s_max s) then qj (d_max X + EPS) else s_max s in
+          match jv_q lo, jv_q hi with
+          | Some lo, Some hi =>
+              let '(loc, scale) := o_tg_opt X lo hi in
+              let p := [("a", jdiv (lo - loc) scale); ("b", jdiv (hi - loc) scale);
+                        ("loc", qj loc); ("scale", qj scale)] in
+              ((set_params (Some p) s, RsGlobal g), Ok tt)
+          | _, _ => (w, Err TypeErr)
+          end
+      | FKDE =>
+          let step :=
+            if truthy (s_ss s) then
+              match jv_nat (s_ss s) with
+              | Some n =>
+                  match kde_check (d_n X) false (s_bw s) (s_w s) with
+                  | None => Ok (JList [JList (map qj (o_resample X (s_bw s) (s_w s) n g))],
+                                mkDraw (JStr "kde.fit.resample") n :: g)
+                  | Some e => Err e
+                  end
+              | None => Err TypeErr
+              end
+            else Ok (JList (map qj (o_tolist X)), g) in
+          match step with
+          | Err e => (w, Err e)
+          | Ok (ds, g1) =>
+              let s1 := set_params (Some [("dataset", ds)]) s in
+              let '(s2, m) := kde_get_model s1 in
+              match m with
+              | Ok km => ((set_model (Some km) s2, RsGlobal g1), Ok tt)
+              | Err e => ((s2, RsGlobal g1), Err e)
+              end
+          end
+      | f => ((set_params (Some (plain_params o_sfit f X)) s, RsGlobal g), Ok tt)
+      end
+    end.
+
+  Definition run_fit (c : M unit) (s : sinst) (g : grng) : sinst * grng * option err :=
+    let '((s', src'), r) := c (s, RsGlobal g) in
+    (s', match src' with RsGlobal g' => g' | RsOwn _ => g end, match r with Ok _ => None | Err e => Some e end).
+
+  Theorem C19_bridge_scipy_fit : forall s X g,
+    run_fit (gen_ScipyModel_fit model__fit_constant model__fit X) s g
+    = fit_scipy o_sfit o_tg_opt o_tolist o_resample s X g.
+  Proof.
+    intros. unfold run_fit, gen_ScipyModel_fit, fit_scipy.
+    unfold m_seq at 1. unfold m_bind at 1. unfold m_bind at 1.
+    rewrite C19_bridge_check_constant_value.
+    destruct (d_const X) as [c|] eqn:EC.
+    - unfold model__fit_constant. rewrite EC. m_unfold. cbn [fst snd].
+      destruct (constant_params o_sfit (set_constant (qj c) s) X c); reflexivity.
+    - unfold model__fit. m_unfold. cbn [fst snd].
+      set (s0 := set_ov no_ov (set_const None s)).
+      destruct (s_fam s0) eqn:EF; try reflexivity.
+      + destruct (jv_q (if is_none (s_min s0) then qj (d_min X - EPS) else s_min s0)); [|reflexivity].
+        destruct (jv_q (if is_none (s_max s0) then qj (d_max X + EPS) else s_max s0)); [|reflexivity].
+        destruct (o_tg_opt X q q0). reflexivity.
+      + match goal with |- context [if truthy ?a then ?b else ?c] => destruct (if truthy a then b else c) as [[ds g1]|e] end; [|reflexivity].
+        destruct (kde_get_model (set_params (Some [("dataset", ds)]) s0)) as [s2 [km|e]]; reflexivity.
+  Qed.
+
+  (* the fit-purity theorems, transferred to the generated fit *)
+  Definition gen_fit (s : sinst) (X : data) (g : grng) : sinst * grng * option err :=
+    run_fit (gen_ScipyModel_fit model__fit_constant model__fit X) s g.
+  Fixpoint gen_run_fits (s : sinst) (hs : list data) (g : grng) : sinst * grng :=
+    match hs with
+    | [] => (s, g)
+    | X :: r => let '(s', g', _) := gen_fit s X g in gen_run_fits s' r g'
+    end.
+  Lemma gen_run_fits_bridge : forall hs s g,
+    gen_run_fits s hs g = run_fits_s o_sfit o_tg_opt o_tolist o_resample s hs g.
+  Proof.
+    induction hs as [|X r IH]; intros s g; [reflexivity|].
+    cbn [gen_run_fits run_fits_s]. unfold gen_fit. rewrite C19_bridge_scipy_fit.
+    destruct (fit_scipy o_sfit o_tg_opt o_tolist o_resample s X g) as [[s' g'] e]. apply IH.
+  Qed.
+  Theorem C19_gen_fit_pure_scipy_full : forall s0 hs X g0 g,
+      s_fam s0 <> FKDE ->
+      er (gen_fit (fst (gen_run_fits s0 hs g0)) X g) = None ->
+      observe_s (st (gen_fit (fst (gen_run_fits s0 hs g0)) X g)) = observe_s (st (gen_fit s0 X g)).
+  Proof.
+    intros s0 hs X g0 g. rewrite gen_run_fits_bridge. unfold gen_fit. rewrite !C19_bridge_scipy_fit.
+    apply fit_pure_scipy_full.
+  Qed.
+  Theorem C19_gen_fit_pure_plain : forall s0 hs X g0 g,
+      plain (s_fam s0) ->
+      observe_s (st (gen_fit (fst (gen_run_fits s0 hs g0)) X g)) = observe_s (st (gen_fit s0 X g)).
+  Proof.
+    intros s0 hs X g0 g. rewrite gen_run_fits_bridge. unfold gen_fit. rewrite !C19_bridge_scipy_fit.
+    apply fit_pure_plain.
+  Qed.
+End UniCtlFit.
+
+Definition model__is_constant : M bool :=
+  fun w => (w, match s_params (fst w) with Some p => is_constant (s_fam (fst w)) p | None => Err TypeErr end).
+Definition model__extract_constant : M jv :=
+  fun w => (w, match s_params (fst w) with Some p => extract_constant (s_fam (fst w)) p | None => Err TypeErr end).
+
+Theorem C19_bridge_set_params : forall s src p, s_fam s <> FKDE ->
+  gen_ScipyModel__set_params model__is_constant model__extract_constant p (s, src) =
+  match set_params_scipy s p with
+  | Ok s' => ((s', src), Ok tt)
+  | Err e => ((set_params (Some p) s, src), Err e)
+  end.
+Proof.
+  intros s src p HF. unfold gen_ScipyModel__set_params, set_params_scipy, model__is_constant, model__extract_constant, bind.
+  m_unfold. cbv beta iota delta [fst snd].
+  change (s_params (set_params (Some p) s)) with (Some p). change (s_fam (set_params (Some p) s)) with (s_fam s).
+  cbv beta iota.
+  destruct (is_constant (s_fam s) p) as [[|]|e]; try reflexivity.
+  - cbv beta iota delta [fst snd].
+    change (s_params (set_params (Some p) s)) with (Some p). change (s_fam (set_params (Some p) s)) with (s_fam s).
+    cbv beta iota.
+    destruct (extract_constant (s_fam s) p); [|reflexivity]. rewrite C19_bridge_set_constant_value. reflexivity.
+  - destruct (s_fam s); try reflexivity. congruence.
+Qed.
+
+(* ---- queries ---- *)
+Definition run_q (c : M obs) (s : sinst) (g : grng) : sinst * grng * obs :=
+  let '((s', src'), r) := c (s, RsGlobal g) in
+  (s', match src' with RsGlobal g' => g' | RsOwn _ => g end, match r with Ok o => o | Err e => ObsErr e end).
+
+Lemma class_query_plain : forall s k, s_fam s <> FKDE ->
+  class_query s k = if negb (s_fitted s) then ObsErr NotFitted
+                    else match s_params s with Some p => ObsScipy k (s_fam s) p | None => ObsErr TypeErr end.
+Proof. intros s k H. unfold class_query. destruct (s_fam s); try reflexivity. congruence. Qed.
+
+Lemma gen_plain_query : forall meth k s src, scipy_slot meth = Some k -> s_fam s <> FKDE ->
+  m_seq gen_Univariate_check_fit (py_model_call meth) (s, src)
+  = ((s, src), match class_query s k with ObsErr e => Err e | o => Ok o end).
+Proof.
+  intros meth k s src Hm HF. unfold m_seq, m_bind. rewrite C19_bridge_check_fit, class_query_plain by exact HF.
+  destruct (s_fitted s); [|reflexivity]. unfold py_model_call. rewrite Hm. cbn [fst negb].
+  destruct (s_params s); reflexivity.
+Qed.
+
+Ltac plain_query HF :=
+  unfold run_q, py_call_query, query_scipy; cbn [fst snd];
+  match goal with |- context [ov_slot ?n] => let v := eval vm_compute in (ov_slot n) in change (ov_slot n) with v end;
+  cbv beta iota;
+  match goal with
+  | |- context [overridden ?s ?k] => destruct (overridden s k); [reflexivity|]
+  | _ => idtac
+  end.
+
+Theorem C19_bridge_query_pdf : forall s n g, s_fam s <> FKDE ->
+  run_q (py_call_query "probability_density" gen_ScipyModel_probability_density) s g = query_scipy s QPdf n g.
+Proof.
+  intros s n g HF. plain_query HF. unfold gen_ScipyModel_probability_density.
+  rewrite (gen_plain_query "pdf" QPdf) by (reflexivity || exact HF).
+  rewrite class_query_plain by exact HF. destruct (s_fitted s); [|reflexivity]. destruct (s_params s); reflexivity.
+Qed.
+Theorem C19_bridge_query_cdf : forall s n g, s_fam s <> FKDE ->
+  run_q (py_call_query "cumulative_distribution" gen_ScipyModel_cumulative_distribution) s g = query_scipy s QCdf n g.
+Proof.
+  intros s n g HF. plain_query HF. unfold gen_ScipyModel_cumulative_distribution.
+  rewrite (gen_plain_query "cdf" QCdf) by (reflexivity || exact HF).
+  rewrite class_query_plain by exact HF. destruct (s_fitted s); [|reflexivity]. destruct (s_params s); reflexivity.
+Qed.
+Theorem C19_bridge_query_ppf : forall s n g, s_fam s <> FKDE ->
+  run_q (py_call_query "percent_point" gen_ScipyModel_percent_point) s g = query_scipy s QPpf n g.
+Proof.
+  intros s n g HF. plain_query HF. unfold gen_ScipyModel_percent_point.
+  rewrite (gen_plain_query "ppf" QPpf) by (reflexivity || exact HF).
+  rewrite class_query_plain by exact HF. destruct (s_fitted s); [|reflexivity]. destruct (s_params s); reflexivity.
+Qed.
+(* log_probability_density is NOT one of the four replaced attributes: always the class method; every scipy MODEL_CLASS has logpdf *)
+Theorem C19_bridge_query_logpdf : forall s n g, s_fam s <> FKDE ->
+  run_q (py_call_query "log_probability_density" gen_ScipyModel_log_probability_density) s g = query_scipy s QLogPdf n g.
+Proof.
+  intros s n g HF. plain_query HF. change (overridden s QLogPdf) with false. cbv iota.
+  unfold gen_ScipyModel_log_probability_density.
+  unfold m_seq at 1. unfold m_bind at 1. rewrite C19_bridge_check_fit, class_query_plain by exact HF.
+  destruct (s_fitted s); [|reflexivity].
+  unfold m_bind, py_model_hasattr, py_model_call. cbn [fst negb].
+  change (scipy_slot "logpdf") with (Some QLogPdf). cbv beta iota. cbn [fst snd].
+  destruct (s_params s); reflexivity.
+Qed.
+Lemma set_rs_same : forall s, set_rs (s_rs s) s = s.
+Proof. destruct s; reflexivity. Qed.
+Theorem C19_bridge_query_sample : forall s n g, s_fam s <> FKDE ->
+  run_q (py_call_query "sample" (gen_ScipyModel_sample n)) s g = query_scipy s QSample n g.
+Proof.
+  intros s n g HF. plain_query HF. unfold gen_ScipyModel_sample, py_random_state. cbn [fst snd].
+  rewrite class_query_plain by exact HF.
+  destruct (s_rs s) as [[seed ds]|] eqn:ER.
+  - unfold m_seq, m_bind. rewrite C19_bridge_check_fit.
+    destruct (s_fitted s); cbn [negb fst snd]; [|rewrite <- ER, set_rs_same; reflexivity].
+    unfold py_model_rvs. cbn [fst snd].
+    destruct (s_params s); cbn [fst snd push_draw]; [reflexivity|rewrite <- ER, set_rs_same; reflexivity].
+  - unfold m_seq, m_bind. rewrite C19_bridge_check_fit.
+    destruct (s_fitted s); cbn [negb fst snd]; [|reflexivity].
+    unfold py_model_rvs. cbn [fst snd].
+    destruct (s_params s); reflexivity.
+Qed.
+
+(* ---- to_dict / from_dict ---- *)
+Definition dict_result (r : result params) : result jv := match r with Ok d => Ok (JDict d) | Err e => Err e end.
+Theorem C19_bridge_get_params : forall s src,
+  gen_ScipyModel__get_params (s, src) = ((s, src), match s_params s with Some p => Ok p | None => Err AttributeErr end).
+Proof. intros. unfold gen_ScipyModel__get_params, m_bind, py_get__params, py_copy_opt, m_lift. cbn [fst]. destruct (s_params s); reflexivity. Qed.
+Theorem C19_bridge_to_dict : forall s src, exists r,
+  gen_Univariate_to_dict gen_ScipyModel__get_params (s, src) = ((s, src), r) /\ dict_result r = to_dict_scipy s.
+Proof.
+  intros. unfold gen_Univariate_to_dict, to_dict_scipy.
+  unfold m_seq at 1. unfold m_bind at 1. rewrite C19_bridge_check_fit.
+  destruct (s_fitted s); [|eexists; split; reflexivity]. cbn [negb].
+  unfold m_bind at 1. rewrite C19_bridge_get_params.
+  destruct (s_params s) as [p|]; [|eexists; split; reflexivity].
+  unfold m_bind, py_self_class_is, py_qualified_name_self, py_qualified_name__instance, m_ret, py_setitem. cbn [fst].
+  assert (E : String.eqb "Univariate" (fam_name (s_fam s)) = false) by (destruct (s_fam s); reflexivity).
+  rewrite E. eexists; split; reflexivity.
+Qed.
+
+Definition as_scipy (r : result pyobj) : result sinst :=
+  match r with Ok (PoS s) => Ok s | Ok _ => Err Unmodelled | Err e => Err e end.
+Theorem C19_bridge_univariate_set_params : gen_Univariate__set_params_raises = NotImplementedErr.
+Proof. reflexivity. Qed.
+Theorem C19_bridge_from_dict : forall j,
+  as_scipy (gen_Univariate_from_dict (gen_ScipyModel__set_params model__is_constant model__extract_constant) j)
+  = from_dict_scipy j.
+Proof.
+  intros j. unfold gen_Univariate_from_dict, from_dict_scipy.
+  destruct j; try reflexivity. unfold r_bind, py_jv_copy, py_dict_pop. cbn [bind].
+  destruct (dict_pop "type" d) as [[v rest]|]; [|reflexivity]. cbn [bind fst snd].
+  destruct v; try reflexivity.
+  unfold py_get_instance. destruct (resolve_name s) as [c|e]; [|reflexivity]. cbn [bind].
+  destruct c as [f| | | |t]; try reflexivity.
+  rewrite new_scipy_default. cbn [bind]. unfold py_obj__set_params.
+  assert (HS : s_fam (fresh f) = f) by reflexivity.
+  destruct f; rewrite HS;
+    try (unfold py_run_on; rewrite C19_bridge_set_params by (rewrite HS; discriminate);
+         destruct (set_params_scipy _ rest); reflexivity).
+  destruct (set_params_scipy (fresh FKDE) rest); reflexivity.
+Qed.
+
+(* ===================================================================================================== *)
 (* Facts of the CURRENT source (generated from the AST on every run)                                       *)
 (* ===================================================================================================== *)
 (* @store_args: exactly these classes; it is what Lifecycle.has_store_args / u_stored / g_stored assume *)
@@ -475,6 +772,7 @@ Theorem C19_fit_writes :
    ("VineCopula", "fit", ["columns"; "depth"; "fitted"; "n_sample"; "n_var"; "ppfs"; "tau_mat"; "trees"; "truncated"; "u_matrix"; "unis"])].
 Proof. vm_compute. reflexivity. Qed.
 
+
 (* ===================================================================================================== *)
 (* Non-vacuity                                                                                             *)
 (* ===================================================================================================== *)
@@ -538,3 +836,20 @@ Print Assumptions C19_def_before_use_full_refuted.
 Print Assumptions C19_level2_constraint_is_adjacent.
 Print Assumptions C19_check_fit_first.
 Print Assumptions C19_fit_writes.
+Print Assumptions C19_bridge_check_fit.
+Print Assumptions C19_bridge_replace_constant_methods.
+Print Assumptions C19_bridge_set_constant_value.
+Print Assumptions C19_bridge_check_constant_value.
+Print Assumptions C19_bridge_scipy_fit.
+Print Assumptions C19_bridge_set_params.
+Print Assumptions C19_bridge_query_pdf.
+Print Assumptions C19_bridge_query_cdf.
+Print Assumptions C19_bridge_query_ppf.
+Print Assumptions C19_bridge_query_logpdf.
+Print Assumptions C19_bridge_query_sample.
+Print Assumptions C19_bridge_get_params.
+Print Assumptions C19_bridge_to_dict.
+Print Assumptions C19_bridge_univariate_set_params.
+Print Assumptions C19_bridge_from_dict.
+Print Assumptions C19_gen_fit_pure_scipy_full.
+Print Assumptions C19_gen_fit_pure_plain.
